@@ -281,20 +281,43 @@ example : (run [.bindLit 0, .enter, .bindTensor 1, .enter, .use 0, .exit [], .ex
     safe 0 0 [.enter, .bindTensor 1, .enter, .use 0, .exit [], .exit [1]] = true ∧
     (run [.bindLit 0, .enter, .bindTensor 0, .use 0, .exit [0], .use 0]).obs = [some false, some false] := by decide
 
-/-! ## The converter's promotion and the opset (finding D47) -/
+/-! ## The converter's promotion and the opset (finding D47, fixed by 7b0eb49) -/
 
-/-- From opset 15 on, every operator the converter's promotion emits exists. -/
-theorem static_valid_from_opset15 {κ : Type} [DecidableEq κ] (v : Nat) (hv : 15 ≤ v) (fs : List (Formal κ))
-    (args : List Arg) : staticValidAt v fs args = true := by
-  simp [staticValidAt, castLikeSince, hv]
+/-- **static_promotion_exists_at_every_opset.**  For the code as it is: at every default opset and whether or not the
+sibling's dtype is known, what `cast_like` emits to promote a literal — `CastLike`, `Cast`, or nothing (refusal) —
+exists at that opset. -/
+theorem static_promotion_exists_at_every_opset (v : Nat) (known : Bool) :
+    (promoAt v known).availableAt v = true := by
+  unfold promoAt
+  by_cases h : castLikeSince ≤ v
+  · simp [h, Promo.availableAt]
+  · cases known <;> simp [h, Promo.availableAt]
 
-/-- **Refuted for the supported opsets 13 and 14 — finding D47.**  "For every opset ≥ 13 the promotion only emits
-operators of that opset" is false: `Add(x, 1)` at opset 13 gets a `CastLike`, which exists from opset 15. -/
-theorem static_valid_below_opset15_refuted :
-    ¬ (∀ (v : Nat) (fs : List (Formal Nat)) (args : List Arg), 13 ≤ v → staticValidAt v fs args = true) := by
+/-- From opset 15 on nothing changes: `castStaticAt v = castStatic`; below, either the same operands (via `Cast`) or a
+refusal — never different operands. -/
+theorem castStaticAt_eq {κ : Type} [DecidableEq κ] (v : Nat) (fs : List (Formal κ)) (args : List Arg) :
+    castStaticAt v fs args = castStatic fs args ∨ castStaticAt v fs args = .error .refused := by
+  unfold castStaticAt
+  by_cases h : (promosAt v fs args).contains Promo.refused = true
+  · right; rw [if_pos h]
+  · left; rw [if_neg h]
+
+/-- **Pre-fix statement, refuted — finding D47 (fixed).**  With `CastLike` emitted at every opset (`promoAtPre`), "the
+promotion exists at every supported opset ≥ 13" was false at opsets 13 and 14. -/
+theorem static_valid_below_opset15_prefix_refuted :
+    ¬ (∀ (v : Nat) (known : Bool), 13 ≤ v → (promoAtPre v known).availableAt v = true) := by
   intro h
-  have := h 13 sigTT [.tensor .double true, .lit (.s (.i 1))] (by decide)
+  have := h 13 true (by decide)
   revert this; decide
+
+/-- The former witness `Add(x : DOUBLE, 1)` at opset 13: now promoted with `Cast`, same operands as at opset 18; with a
+sibling of unknown static dtype the program is refused. -/
+example : promosAt 13 sigTT [.tensor .double true, .lit (.s (.i 1))] = [.cast]
+    ∧ castStaticAt 13 sigTT [.tensor .double true, .lit (.s (.i 1))]
+      = castStaticAt 18 sigTT [.tensor .double true, .lit (.s (.i 1))]
+    ∧ castStaticAt 13 sigTT [.tensor .double false, .lit (.s (.i 1))] = .error .refused
+    ∧ castStaticAt 15 sigTT [.tensor .double false, .lit (.s (.i 1))]
+      = .ok [.pass .double, .const .double false [.f false 1 1 false]] := by decide
 
 /-! ## First binding (builder) versus last binding (converter, eager) -/
 
